@@ -232,7 +232,7 @@ theorem array_auto_extend (xs : List DV) (k : Nat) (v : DV) :
 
 /-- Zero is never an index one can assign to. -/
 theorem zero_index_assignment_fails (xs : List DV) (rest : List DV) (v : DV) :
-    putPath (.arr xs) (vint 0 :: rest) v = .error .raise := by
+    putPath (.arr xs) (vint 0 :: rest) v = .error .raiseDirty := by
   unfold putPath
   simp [vint]
   rfl
@@ -421,6 +421,46 @@ theorem output_is_append_only_over_every_statement (p : Prog) (fuel : Nat) (st :
 theorem output_is_append_only_over_every_expression (p : Prog) (fuel : Nat) (e : Expr) (s : St) :
     s.out <+: (runM (eval p fuel e) s).2.out :=
   (allAppends p fuel).eval e s
+
+/-- ARGUMENTS ARE PASSED BY VALUE AND CALLS ARE FENCED, for the interpreter's own call function: a call
+of a named user function (the parser marks none of them as a literal) - whatever its body assigns,
+declares, unsets or calls, however deep it recurses and however it ends - leaves every frame of the
+caller exactly as it was: same variables, same declared types, same values. -/
+theorem a_named_function_call_cannot_touch_the_callers_locals (p : Prog) (fuel : Nat) (name : String)
+    (args : List DV) (s : St) (hname : name.startsWith "#" = false) (hfs : ∀ d ∈ p.funcs, d.isLit = false) :
+    (runM (callFn p fuel name args) s).2.stack = s.stack :=
+  callFn_named_restores p fuel name args s hname hfs
+
+/-- POSITIONAL ACCESS on any map, as `$[[n]]` / `$[[[n]]]` on the record: `m[[n]]` is the NAME at position n
+(a string, whatever it looks like) and `m[[[n]]]` the VALUE there, 1-up. -/
+theorem positional_name_and_value (kvs : List (Bytes × DV)) (n : Nat) (h : n < kvs.length) :
+    positionalRead (.map kvs) (.arr [vint (n + 1)]) = some (pure (vstr kvs[n].1)) ∧
+    positionalRead (.map kvs) (.arr [.arr [vint (n + 1)]]) = some (pure kvs[n].2) := by
+  have h1 : (1 : Int) ≤ (n : Int) + 1 ∧ (n : Int) + 1 ≤ (kvs.length : Int) := by omega
+  simp [positionalRead, vint, unalias, h1, h]
+
+/-- ... and a position that is zero or beyond either end reads as absent, not as an error. -/
+theorem positional_out_of_bounds_is_absent (kvs : List (Bytes × DV)) (i : Int)
+    (h : i = 0 ∨ (kvs.length : Int) < i ∨ i < -(kvs.length : Int)) :
+    positionalRead (.map kvs) (.arr [vint i]) = some (pure absent) ∧
+    positionalRead (.map kvs) (.arr [.arr [vint i]]) = some (pure absent) := by
+  have h1 : ¬ ((1 : Int) ≤ i ∧ i ≤ (kvs.length : Int)) := by omega
+  have h2 : ¬ (-(kvs.length : Int) ≤ i ∧ i ≤ -1) := by omega
+  simp [positionalRead, vint, unalias, h1, h2]
+
+/-- An in-bounds array slot holding the wrong kind of value for the next index is OVERWRITTEN by the
+auto-create: a string index makes it a map. -/
+theorem array_slot_overwritten_for_string_index (x : Val) (k : Bytes) (v : DV) :
+    putPath (.arr [.s x]) [vint 1, .s (.str k)] v = .ok (.arr [.map [(k, v)]]) := by
+  simp [putPath, vint, unalias, listSet, keyText, mput]
+  rfl
+
+/-- A path of keys only walks through maps: a non-map met while keys remain is an error, the empty path absent. -/
+theorem path_index_walks_maps_only (kvs : Fields) (k : Bytes) (x : Val) (j : DV) (h : mget kvs k = some (.s x)) :
+    indexPathMap (.map kvs) [.s (.str k), j] = pure error ∧ indexPathMap (.map kvs) [] = pure absent := by
+  constructor
+  · simp [indexPathMap, keyOf, h]
+  · simp [indexPathMap]
 
 /-- Non-vacuity: the premises above are met by ordinary states. -/
 example : ∃ st', Stack.define ([] :: [[{ name := "x", ty := .int, val := vint 1 }]]) "x" .str (vstr [97]) = .ok st' ∧
